@@ -296,6 +296,7 @@ def uk2dt(t, tzinfo = None):
         return NaT
     elif t.lower() == 'now':
         return datetime.datetime.now()
+    t = t.strip() # the dialect tests below look at the first characters of the text
     res = parser.parse(t)
     if ambiguity.search(t) is not None:
         if res.day<13:
@@ -314,6 +315,7 @@ def us2dt(t, tzinfo = None):
         return NaT
     elif t.lower() == 'now':
         return datetime.datetime.now()
+    t = t.strip() # the dialect test below looks at the first characters of the text
     res = parser.parse(t)
     if ambiguity.search(t) is not None and res.month != int(t[:2].replace('-','').replace('/','').replace('.','')):
         raise ValueError('the date is not in US format')
